@@ -1,2 +1,299 @@
-//! harnesses mounted into the crate (see DESIGN.md 3.1)
+//! Store-level step lemmas: C02 (values), C03 (visibility), C04/C05 (expiry index invariant),
+//! C09 (validator veto), C18 (collision isolation). Child of `crate::store`.
 #![allow(dead_code, unused_imports)]
+use super::*;
+use crate::ttl::verif_harness::{self as th, any_duration, created, deadline, em_count_key, em_from, em_listed, em_total, time_at, EmGhost};
+use crate::verif_env::{clock, HS};
+use crate::verif_nd::{self as nd, harness, vassert, vcover};
+use std::sync::atomic::{AtomicUsize, Ordering};
+use std::time::Duration;
+
+#[cfg(kani)]
+use crate::verif_env::stubs;
+
+/// ghost copy of a store entry
+#[derive(Copy, Clone, PartialEq, Debug)]
+pub(crate) struct GEnt {
+    pub key: u64,
+    pub conflict: u64,
+    pub val: u64,
+    pub exp: Time,
+}
+
+/// validator whose answer is decided by the solver; counts its calls. One call per operation, so
+/// a symbolic bool stands for "every predicate over (previous, new)".
+pub(crate) struct NdValidator {
+    pub calls: AtomicUsize,
+    pub forced: Option<bool>,
+    pub last: AtomicUsize,
+}
+impl NdValidator {
+    pub fn new(forced: Option<bool>) -> Self {
+        Self { calls: AtomicUsize::new(0), forced, last: AtomicUsize::new(2) }
+    }
+    pub fn calls(&self) -> usize {
+        self.calls.load(Ordering::SeqCst)
+    }
+    /// answer of the last call: Some(true/false), None if never called
+    pub fn last(&self) -> Option<bool> {
+        match self.last.load(Ordering::SeqCst) {
+            0 => Some(false),
+            1 => Some(true),
+            _ => None,
+        }
+    }
+}
+impl UpdateValidator for NdValidator {
+    type Value = u64;
+    fn should_update(&self, _prev: &u64, _curr: &u64) -> bool {
+        self.calls.fetch_add(1, Ordering::SeqCst);
+        let a = match self.forced {
+            Some(b) => b,
+            None => nd::any_bool(),
+        };
+        self.last.store(a as usize, Ordering::SeqCst);
+        a
+    }
+}
+
+pub(crate) type Store = ShardedMap<u64, NdValidator, HS, HS>;
+
+/// Build a store holding exactly the given entries, with an expiration map that satisfies I-EM:
+/// every entry with a TTL is filed (with its conflict) under storage_bucket(expiration), nothing
+/// else is filed except the optional `stale` listing (a key that is not in the store).
+pub(crate) fn store_from(a: Option<GEnt>, b: Option<GEnt>, stale: Option<(i64, u64, u64)>, v: NdValidator) -> Store {
+    let mut g: EmGhost = [None, None, None];
+    if let Some(e) = a {
+        if !e.exp.is_zero() {
+            g[0] = Some((th::bucket_of(e.exp), e.key, e.conflict));
+        }
+    }
+    if let Some(e) = b {
+        if !e.exp.is_zero() {
+            g[1] = Some((th::bucket_of(e.exp), e.key, e.conflict));
+        }
+    }
+    g[2] = stale;
+    let em = em_from(&g);
+    let s = ShardedMap::with_validator_and_hasher(em, v, HS::default());
+    for e in [a, b] {
+        if let Some(e) = e {
+            s.shards[(e.key as usize) % NUM_OF_SHARDS].write().insert(
+                e.key,
+                StoreItem { key: e.key, conflict: e.conflict, value: SharedValue::new(e.val), expiration: e.exp },
+            );
+        }
+    }
+    s
+}
+
+/// raw content of the store for a key (bypasses the expiry filter of get)
+pub(crate) fn raw(s: &Store, k: u64) -> Option<GEnt> {
+    s.shards[(k as usize) % NUM_OF_SHARDS]
+        .read()
+        .get(&k)
+        .map(|it| GEnt { key: it.key, conflict: it.conflict, val: *it.value.get(), exp: it.expiration })
+}
+
+/// I-EM for one key: filed exactly under its deadline bucket iff resident with a TTL
+pub(crate) fn em_ok(s: &Store, k: u64) -> bool {
+    match raw(s, k) {
+        Some(e) if !e.exp.is_zero() => {
+            em_listed(&s.em, th::bucket_of(e.exp), k) == Some(e.conflict) && em_count_key(&s.em, k) == 1
+        }
+        _ => em_count_key(&s.em, k) == 0,
+    }
+}
+
+/// arbitrary entry created at or before `now` with TTL class `ttl`: 0 = none, 1 = arbitrary, 2 = either
+pub(crate) fn any_ent(now: Duration, ttl: u8, window: u64) -> GEnt {
+    let back = any_duration(window);
+    nd::assume(back <= now);
+    let d = if ttl == 0 {
+        Duration::ZERO
+    } else {
+        let d = any_duration(window);
+        if ttl == 1 {
+            nd::assume(!d.is_zero());
+        }
+        d
+    };
+    GEnt { key: nd::any_u64(), conflict: nd::any_u64(), val: nd::any_u64(), exp: time_at(now - back, d) }
+}
+
+pub(crate) const OP_INSERT: u8 = 0;
+pub(crate) const OP_UPDATE: u8 = 1;
+pub(crate) const OP_REMOVE: u8 = 2;
+pub(crate) const OP_GETMUT: u8 = 3;
+
+/// is key k filed under the bucket of expiration `t` (with which conflict)?
+fn filed(s: &Store, t: Time, k: u64) -> Option<u64> {
+    em_listed(&s.em, th::bucket_of(t), k)
+}
+
+/// One store operation from an arbitrary I-EM state, compared against plain map semantics.
+/// State: an optional subject entry under the addressed key k and an optional neighbour under
+/// another key g. `ttl`: TTL class of resident and new entries (0 none, 2 with or without).
+/// `em`: also assert the expiry-index invariant (I-EM) for both keys.
+fn store_step(op: u8, ttl: u8, forced: Option<bool>, em: bool) {
+    let now = clock::set_nd(1000, th::SECS_MAX);
+    let window = 4u64;
+    let subj = if nd::any_bool() { Some(any_ent(now, ttl, window)) } else { None };
+    let nb = if nd::any_bool() { Some(any_ent(now, ttl, window)) } else { None };
+    let k = match subj {
+        Some(e) => e.key,
+        None => nd::any_u64(),
+    };
+    if let Some(y) = nb {
+        nd::assume(y.key != k);
+    }
+    let s = store_from(subj, nb, None, NdValidator::new(forced));
+    let c = nd::any_u64();
+    let v = nd::any_u64();
+    let d = if ttl == 0 { Duration::ZERO } else { any_duration(window) };
+    let new = time_at(now, d);
+    let conflict_ok = match subj {
+        Some(e) => c == 0 || c == e.conflict,
+        None => false,
+    };
+    let mut expect: Option<GEnt> = subj;
+    if op == OP_INSERT {
+        let r = s.try_insert(k, v, c, new);
+        vassert!(r.is_ok(), "try_insert does not fail");
+        if subj.is_none() {
+            expect = Some(GEnt { key: k, conflict: c, val: v, exp: new });
+            vassert!(s.validator.calls() == 0, "validator not consulted for a new key");
+        } else if conflict_ok && s.validator.last() == Some(true) {
+            expect = Some(GEnt { key: k, conflict: c, val: v, exp: new });
+        }
+        vcover!(subj.is_some() && conflict_ok && s.validator.last() == Some(true), "[insert] insert replaces a resident");
+        vcover!(subj.is_none() && nb.is_some(), "[insert] insert next to a neighbour");
+    } else if op == OP_UPDATE {
+        let r = s.try_update(k, v, c, new).unwrap();
+        match r {
+            UpdateResult::NotExist(x) => {
+                vassert!(subj.is_none() && x == v, "NotExist iff the key is absent; the new value is handed back");
+            }
+            UpdateResult::Conflict(x) => {
+                vassert!(subj.is_some() && !conflict_ok && x == v, "Conflict iff resident under another conflict hash; the new value is handed back");
+            }
+            UpdateResult::Reject(x) => {
+                vassert!(conflict_ok && s.validator.last() == Some(false) && x == v, "Reject iff the validator vetoed; the new value is handed back");
+            }
+            UpdateResult::Update(old) => {
+                vassert!(conflict_ok && s.validator.last() == Some(true), "Update only when resident, conflict matches and validator agrees");
+                vassert!(old == subj.unwrap().val, "Update hands back the previous value of that same key");
+                expect = Some(GEnt { key: k, conflict: subj.unwrap().conflict, val: v, exp: new });
+            }
+        }
+        vcover!(conflict_ok && s.validator.last() == Some(true), "[update] update applied");
+        vcover!(conflict_ok && s.validator.last() == Some(false), "[update] update vetoed");
+        vcover!(subj.is_some() && !conflict_ok, "[update] update hits a colliding key");
+    } else if op == OP_REMOVE {
+        let r = s.try_remove(&k, c).unwrap();
+        if conflict_ok {
+            let it = r.unwrap();
+            vassert!(it.key == k && *it.value.get() == subj.unwrap().val && it.conflict == subj.unwrap().conflict, "remove hands back exactly the resident entry of that key");
+            expect = None;
+        } else {
+            vassert!(r.is_none(), "remove of an absent or colliding key removes nothing");
+        }
+        vcover!(conflict_ok && nb.is_some(), "[remove] remove next to a neighbour");
+        vcover!(subj.is_some() && !conflict_ok, "[remove] remove hits a colliding key");
+    } else {
+        let visible = conflict_ok && (subj.unwrap().exp.is_zero() || now - created(&subj.unwrap().exp) < th::ttl_of(&subj.unwrap().exp));
+        {
+            let r = s.get(&k, c);
+            vassert!(r.is_some() == visible, "get returns a value iff the key is resident, the conflict matches and its TTL has not elapsed");
+            if let Some(r) = r {
+                vassert!(*r.value() == subj.unwrap().val, "get returns the value stored under that key");
+                if !subj.unwrap().exp.is_zero() {
+                    vassert!(r.ttl() == th::ttl_of(&subj.unwrap().exp) - (now - created(&subj.unwrap().exp)), "ValueRef::ttl reports the remaining time");
+                } else {
+                    vassert!(r.ttl() == Duration::MAX, "ValueRef::ttl reports no expiry for an entry without TTL");
+                }
+            }
+        }
+        {
+            let r = s.get_mut(&k, c);
+            vassert!(r.is_some() == visible, "get_mut returns a value iff get would");
+            if let Some(mut r) = r {
+                vassert!(*r.value() == subj.unwrap().val, "get_mut returns the value stored under that key");
+                r.write(v);
+                expect = Some(GEnt { val: v, ..subj.unwrap() });
+            }
+        }
+        vcover!(visible, "[lookup] lookup hit");
+        vcover!(conflict_ok && !visible, "[lookup] lookup of an expired entry");
+        vcover!(subj.is_some() && !conflict_ok, "[lookup] lookup of a colliding key");
+    }
+    let after = raw(&s, k);
+    vassert!(after == expect, "the entry of the addressed key is exactly what map semantics prescribe (value, conflict, deadline)");
+    if !conflict_ok && subj.is_some() {
+        vassert!(after == subj, "an operation whose conflict hash does not match leaves the resident entry untouched");
+    }
+    if s.validator.last() == Some(false) {
+        vassert!(after == subj, "a vetoed write leaves the resident value and its TTL exactly as they were");
+    }
+    if let Some(o) = nb {
+        vassert!(raw(&s, o.key) == Some(o), "the entry of every other key is untouched");
+    }
+    vassert!(s.validator.calls() <= 1, "validator consulted at most once");
+    if em {
+        // I-EM for the addressed key: filed under its current deadline bucket (with its conflict)
+        // iff resident with a TTL; not filed under the previous bucket any more
+        match after {
+            Some(e) if !e.exp.is_zero() => {
+                vassert!(filed(&s, e.exp, k) == Some(e.conflict), "I-EM: the addressed key is filed for cleanup under its current deadline");
+            }
+            _ => {
+                vassert!(filed(&s, new, k).is_none(), "I-EM: a key without TTL (or not resident) is not filed for cleanup");
+            }
+        }
+        if let Some(e0) = subj {
+            let moved = match after {
+                Some(e) => e.exp.is_zero() || th::bucket_of(e.exp) != th::bucket_of(e0.exp),
+                None => true,
+            };
+            if moved && !e0.exp.is_zero() {
+                vassert!(filed(&s, e0.exp, k).is_none(), "I-EM: the previous filing of the addressed key is gone");
+            }
+        }
+        if let Some(o) = nb {
+            if !o.exp.is_zero() {
+                vassert!(filed(&s, o.exp, o.key) == Some(o.conflict), "I-EM: a neighbour sharing an expiry bucket stays filed for cleanup");
+            }
+        }
+    }
+    std::mem::forget(s);
+}
+
+macro_rules! store_harness {
+    ($name:ident, $op:expr, $ttl:expr, $forced:expr, $em:expr) => {
+        harness! {
+            [kani::unwind(5),
+             kani::stub(parking_lot::RawRwLock::lock_shared_slow, stubs::rw_lock_shared_slow),
+             kani::stub(parking_lot::RawRwLock::lock_exclusive_slow, stubs::rw_lock_exclusive_slow),
+             kani::stub(parking_lot::RawRwLock::unlock_shared_slow, stubs::rw_unlock_shared_slow),
+             kani::stub(parking_lot::RawRwLock::unlock_exclusive_slow, stubs::rw_unlock_exclusive_slow)]
+            fn $name() {
+                store_step($op, $ttl, $forced, $em);
+            }
+        }
+    };
+}
+
+// C02: values (entries without TTL: the expiry index is not involved)
+store_harness!(c02_store_insert, OP_INSERT, 0, None, false);
+store_harness!(c02_store_update, OP_UPDATE, 0, None, false);
+store_harness!(c02_store_remove, OP_REMOVE, 0, None, false);
+store_harness!(c02_store_lookup, OP_GETMUT, 0, None, false);
+// C04 / C05: expiry index invariant with TTLs switching on and off
+store_harness!(c04_em_store_insert, OP_INSERT, 2, Some(true), true);
+store_harness!(c04_em_store_update, OP_UPDATE, 2, Some(true), true);
+store_harness!(c04_em_store_remove, OP_REMOVE, 2, Some(true), true);
+// C03: visibility by time
+store_harness!(c03_store_lookup_ttl, OP_GETMUT, 2, None, false);
+// C09: vetoed writes
+store_harness!(c09_store_veto_update, OP_UPDATE, 2, Some(false), true);
+store_harness!(c09_store_veto_insert, OP_INSERT, 2, Some(false), true);
